@@ -472,6 +472,20 @@ func buildPLYGeneric(s src) *file {
 	format := pick(s, plyFormats, "format")
 	f := &file{Kind: "ply-generic-" + format}
 	w := &plyWriter{f: f, format: format, first: true}
+	if format != "ascii" && s.Int(0, 9, "longlist") == 0 {
+		// one row with one long list (a polyline, a big polygon): longer than any initial capacity a reader may guess
+		f.Kind += "-long-list"
+		p := plyProp{name: "items", elemType: pick(s, []string{"uchar", "char", "uint8"}, "ltype"), lenType: pick(s, []string{"ushort", "int", "uint", "uint16", "int32"}, "llen")}
+		elems := []plyElem{{name: "strip", count: 1, props: []plyProp{p}}}
+		w.header(elems, false)
+		n := s.Int(2040, 2700, "longlen")
+		w.value(p.lenType, "len", int64(n), 0, 0)
+		for j := 0; j < n; j++ {
+			w.value(p.elemType, "num", int64(j%100), 0, 0)
+		}
+		w.endRow()
+		return f
+	}
 	ne := s.Int(1, 3, "nelems")
 	var elems []plyElem
 	for i := 0; i < ne; i++ {
@@ -536,6 +550,11 @@ func buildPLYColour(s src) *file {
 	// second "face" or "vertex" (the mesh reader has to turn that file down), before, between or after the others
 	extra := s.Int(0, 3, "extra") == 0
 	faceEl := elems[1]
+	if s.Int(0, 3, "facefirst") == 0 {
+		// the format does not prescribe an order: faces may be declared (and stored) before the vertices they index
+		elems[0], elems[1] = elems[1], elems[0]
+		f.Kind += "-face-first"
+	}
 	if extra {
 		ex := plyElem{pick(s, []string{"edge", "edge", "face", "vertex"}, "extraname"), s.Int(0, 2, "nedges"), []plyProp{{"", "int", "a"}, {"", "short", "b"}}}
 		if ex.name != "edge" {
